@@ -156,24 +156,24 @@ class Spec(core.PropSpec):
             out.rejected = True
             return
         expected = ref_batches(w, ref)
-        saved = ils.DataLoader
-        ils.DataLoader = L
+        from simkit.simloader import dataloader_seam
         delivered = []
         try:
-            loader = s.get_data_loader(num_workers=K, prefetch_factor=plan["prefetch"] if K > 0 else None)
-            n = 0
-            for batch in loader:
-                delivered.append(batch)
-                n += 1
-                if n > len(expected) + 5:
-                    out.violate("C05:loader-no-termination", site, f"more than {len(expected) + 5} batches delivered")
-                    break
+            with dataloader_seam(L, ils):
+                loader = s.get_data_loader(num_workers=K, prefetch_factor=plan["prefetch"] if K > 0 else None)
+                n = 0
+                for batch in loader:
+                    delivered.append(batch)
+                    n += 1
+                    if n > len(expected) + 5:
+                        out.violate("C05:loader-no-termination", site, f"more than {len(expected) + 5} batches delivered")
+                        break
         except Exception as e:
             out.violate("C05:loader-raises:" + type(e).__name__, site, f"{type(e).__name__}: {e}")
             out.ev("raised", type(e).__name__)
             return
-        finally:
-            ils.DataLoader = saved
+        if not L.created:
+            out.count("loader_not_simulated")  # the library built its loader from a place the seam does not cover
         out.count("logical:batches_delivered", len(delivered))
         out.count("sched:worker_steps", len(L.trace))
         # out-of-order completion actually happened?
